@@ -12,6 +12,7 @@ struct OpSpec
     Req rq;          // template (p/n filled per run)
     u64 extent = 0;  // bytes [0, extent) are what the op may legitimately need (conservative, DESIGN appendix D)
     std::string label;
+    int bg = -1;     // what the slot holds before the op: -1 the frame's own bytes, 0 zeros, 1 all ones (producers)
 };
 
 struct OpEnumerator
@@ -270,6 +271,7 @@ struct C10
     {
         u8* p = sim::arena_place((std::size_t)n);
         if(n) std::memcpy(p, bytes.data(), (std::size_t)n);
+        if(n && op.bg >= 0) std::memset(p, op.bg ? 0xFF : 0, (std::size_t)n);
         std::memcpy(p - sim::kCanary, canary, sim::kCanary);
         Req rq = op.rq;
         rq.p = p;
@@ -301,6 +303,7 @@ struct C10
             const std::size_t slack = 1 << 16;
             u8* q = sim::arena_place((std::size_t)n, slack);
             if(n) std::memcpy(q, bytes.data(), (std::size_t)n);
+            if(n && op.bg >= 0) std::memset(q, op.bg ? 0xFF : 0, (std::size_t)n);
             std::memset(q + n, 0x5A, slack);
             Req r2 = op.rq;
             r2.p = q;
@@ -310,7 +313,8 @@ struct C10
             Outcome o2 = call_driver(*drv, r2, rs2);
             // a late check is one that fires inside the *same* accessor call that made the access: the
             // traversal must not have progressed past the call that faulted
-            const std::size_t at_fault = rs.csteps.size() + rs.events.size(), at_handler = rs2.csteps.size() + rs2.events.size();
+            const bool producer = op.rq.sub == M_ENCODE; // progress of a producer = writes begun
+            const std::size_t at_fault = rs.csteps.size() + rs.events.size() + (producer ? (std::size_t)rs.bits : 0), at_handler = rs2.csteps.size() + rs2.events.size() + (producer ? (std::size_t)rs2.bits : 0);
             if(o2.kind == Out::HANDLER && at_handler == at_fault)
             {
                 sim::stats().count("probe.late_check(access-before-assert)");
@@ -396,6 +400,25 @@ inline Result exec_c10(const Plan& plan)
             s.rq.arg = 2; // no size_bytes(m,c) at the end
             s.extent = f.bytes.size();
             s.label = names[v];
+            ops.push_back(s);
+        }
+    }
+    // F9 (capacity) on the writer side: a real producer (random-access setters, or the cursor idiom) encodes
+    // the frame's value tree into a slot of n bytes, for every n. It must end in the handler or complete
+    // inside the slot; with n >= the frame size it must complete (appended last: catalogue indices stay).
+    {
+        static const char* en_names[] = {"producer (random-access setters) over the frame's own bytes", "producer (cursor idiom) over the frame's own bytes", "producer (random-access setters) over an all-ones slot", "producer (cursor idiom) over an all-ones slot", "producer (random-access setters) over a zeroed slot", "producer (cursor idiom) over a zeroed slot"};
+        for(int v = 0; v < 6; v++)
+        {
+            OpSpec s;
+            s.rq.msg = f.msg;
+            s.rq.target = T_MESSAGE;
+            s.rq.sub = M_ENCODE;
+            s.rq.tree = &f.root;
+            s.rq.arg = (u64)(v & 1);
+            s.bg = v < 2 ? -1 : v < 4 ? 1 : 0;
+            s.extent = f.bytes.size();
+            s.label = en_names[v];
             ops.push_back(s);
         }
     }
